@@ -295,6 +295,10 @@ def update(
     {'x': 1, 'y': {'a': 3, 'b': 3}}
 
     """
+    if not isinstance(defaults, Mapping):
+        # a scalar default at this level says nothing about the entries of a nested mapping
+        defaults = None
+
     for k, v in new.items():
         k, v = check_key_val(k, v)
         k = canonical_name(k, old)
